@@ -160,14 +160,44 @@ func concChild(job concJob) {
 	os.Stdout.Write(b)
 }
 
+// runChildPatiently runs a child process of this harness.  A child that died of a Go runtime error
+// (exit status 2 with "fatal error"/"panic" on stderr) is a result; a child that was killed, could not
+// start, or produced no output for any other reason (busy or short-of-memory machine) is simply run
+// again — up to five times, with pauses — and if it never completes the stage is skipped with a note.
+// No deadline is imposed on the child: the harness's own budget is the only bound on a hang.
+func runChildPatiently(rep *vh.Report, what string, mk func() *exec.Cmd) (stdout, stderr string, err error, ok bool) {
+	for try := 0; try < 5; try++ {
+		cmd := mk()
+		var so, se bytes.Buffer
+		cmd.Stdout, cmd.Stderr = &so, &se
+		err = cmd.Run()
+		stdout, stderr = so.String(), se.String()
+		if err == nil {
+			return stdout, stderr, nil, true
+		}
+		goDied := strings.Contains(stderr, "fatal error") || strings.Contains(stderr, "panic:") || strings.Contains(stderr, "goroutine ")
+		if ee, isExit := err.(*exec.ExitError); isExit && ee.ExitCode() > 0 && goDied {
+			return stdout, stderr, err, true // the program itself died: a result
+		}
+		rep.Count("infra:child-rerun " + what)
+		time.Sleep(time.Duration(200*(try+1)) * time.Millisecond)
+	}
+	rep.Note("%s: the child process could not be completed after 5 attempts (%v); stage skipped, no verdict", what, err)
+	return stdout, stderr, err, false
+}
+
 // concStage runs the child and turns its output into report entries.
 func concStage(rep *vh.Report, job concJob, tag string) {
 	jb, _ := json.Marshal(job)
-	cmd := exec.Command(os.Args[0])
-	cmd.Env = append(os.Environ(), "C19_CONC_CHILD="+string(jb), "GORACE=halt_on_error=0 exitcode=0 history_size=2")
-	var so, se bytes.Buffer
-	cmd.Stdout, cmd.Stderr = &so, &se
-	err := cmd.Run()
+	sout, serr, err, completed := runChildPatiently(rep, "E", func() *exec.Cmd {
+		cmd := exec.Command(os.Args[0])
+		cmd.Env = append(os.Environ(), "C19_CONC_CHILD="+string(jb), "GORACE=halt_on_error=0 exitcode=0 history_size=2")
+		return cmd
+	})
+	if !completed {
+		return
+	}
+	so, se := bytes.NewBufferString(sout), bytes.NewBufferString(serr)
 	rp := func(extra map[string]interface{}) map[string]interface{} {
 		m := map[string]interface{}{"op": "E", "seed": job.Seed, "goroutines": job.Goroutines, "millis": job.Millis, "stage": tag}
 		for k, v := range extra {
